@@ -343,9 +343,9 @@ class Lark(Serialize, Generic[_Return_T]):
                     raise ConfigurationError("cache only works with parser='lalr' for now")
 
                 unhashable = ('transformer', 'postlex', 'lexer_callbacks', 'edit_terminals', '_plugins')
-                options_str = ''.join(k+str(v) for k, v in options.items() if k not in unhashable)
+                options_items = [(k, str(v)) for k, v in options.items() if k not in unhashable]
                 from . import __version__
-                s = grammar + options_str + __version__ + str(sys.version_info[:2])
+                s = repr((grammar, options_items, __version__, sys.version_info[:2]))
                 cache_sha256 = sha256_digest(s)
 
                 if isinstance(self.options.cache, str):
